@@ -45,7 +45,7 @@ def want_after(S, want, op):
     return out
 
 
-def oracle(S, proto, path, op, a0, a1, obs, want1):
+def oracle(S, proto, path, op, a0, a1, obs, want1, probe=None):
     """-> list of (key, what) failures of the property on this transition (a0 --op--> a1, observation obs)"""
     fails = []
     method = S['method']
@@ -72,6 +72,31 @@ def oracle(S, proto, path, op, a0, a1, obs, want1):
             fails.append(('io-tied-mask-trainable:%s' % op[0], 'layer %s has its output features tied to a network input/output by the dataflow, but its mask %s has requires_grad=True after %s' % (ln, names[k], M.op_name(op))))
         if obs is not None and obs[k] == 2:
             fails.append(('io-tied-mask-gets-grad', 'layer %s has its output features tied to a network input/output by the dataflow, but its mask %s has a non-zero .grad after forward + (loss+cost).backward()' % (ln, names[k])))
+    # (2c) receptive-field / dilation masks of the Conv1d layers that the network's description gives a stride != 1:
+    #      never among nas_parameters(), never trainable, never a gradient
+    for ln, attr, k in S.get('strided', []):
+        if k is None:
+            fails.append(('strided-mask-missing', 'strided layer %s: its %s is not among the model\'s tensors' % (ln, attr)))
+            continue
+        if k in a1['nas']:
+            fails.append(('strided-mask-in-nas:%s' % attr, 'layer %s is a strided Conv1d but its %s is listed by nas_parameters()' % (ln, names[k])))
+        if a1['rg'][k] and (op == ['init'] or not a0['rg'][k]):
+            fails.append(('strided-mask-trainable:%s:%s' % (attr, op[0]), 'layer %s is a strided Conv1d but its %s has requires_grad=True after %s' % (ln, names[k], M.op_name(op))))
+        if obs is not None and obs[k] != 0:
+            fails.append(('strided-mask-gets-grad:%s' % attr, 'layer %s is a strided Conv1d but its %s has a .grad after forward + (loss+cost).backward()' % (ln, names[k])))
+    # (2d) trainable means trainable: after forward + (loss+cost).backward() every tensor with requires_grad=True that the
+    #      network uses has a .grad (PIT prototypes use every parameter; elsewhere: weights / biases found in use on the prototype),
+    #      and the cost and the output follow an update of every trainable PIT mask
+    if obs is not None:
+        for k, n in enumerate(names):
+            attr = n.rsplit('.', 1)[1]
+            used = method == 'PIT' or (attr in ('weight', 'bias') and S['reads'][k])
+            if a1['rg'][k] and used and obs[k] == 0 and S['frozen'][k] != 'PITFrozenFeaturesMasker':
+                fails.append(('trainable-no-grad:%s:%s' % (method, attr), '%s has requires_grad=True but no .grad after forward + (loss+cost).backward()' % n))
+    for n, cchg, ychg in (probe or []):
+        if not (cchg and ychg):
+            fails.append(('mask-update-ignored:%s:%s' % (method, n.rsplit('.', 1)[1]), '%s is trainable but zeroing it changes %s' % (
+                n, 'neither the cost nor the output' if not (cchg or ychg) else 'the cost but not the output' if cchg else 'the output but not the cost')))
     # (3) train_* make exactly the named group trainable
     if op[0] in ('train_nas_only', 'train_net_only', 'train_net_and_nas'):
         group = set(nas) if op[0] == 'train_nas_only' else set(net) if op[0] == 'train_net_only' else set(nas) | set(net)
@@ -129,6 +154,7 @@ def explore(args):
     method, model, x = M.build(proto, E, seed)
     S = M.describe(method, model, x)
     S['tied'] = M.tied_masks(proto, model, S)
+    S['strided'] = M.strided_masks(proto, model, S)
     ops = M.alphabet(method, thorough)
     a_init = M.observe(model, S)
     # one real object per prototype; a state is re-entered by restoring the reset point taken when it was first reached
@@ -152,6 +178,7 @@ def explore(args):
                 try:
                     obs = M.apply_op(model, x, S, op)
                     a1 = M.observe(model, S)
+                    probe = M.mask_update_probe(model, x, S) if op[0] == 'fb' else None
                 except Exception as ex:   # an exception is an observation
                     exc = 'EXC:%s:%s' % (type(ex).__name__, str(ex)[:120])
                     a1 = None
@@ -161,7 +188,7 @@ def explore(args):
                     continue
                 want1 = want_after(S, want, op)
                 trans.append({'path': path, 'op': op, 'a0': a0, 'a1': a1, 'obs': obs, 'exc': None})
-                for k, what in oracle(S, proto, path, op, a0, a1, obs, want1):
+                for k, what in oracle(S, proto, path, op, a0, a1, obs, want1, probe):
                     fails.append((k, what, path, op))
                 k1 = M.akey(a1)
                 if k1 not in snaps:
@@ -204,7 +231,7 @@ def run(ctx):
             allfails.append((r, f))
         ctx.extra.setdefault('exploration', {})[r['proto']] = {'abstract_states': r['n_states'], 'transitions': len(r['trans']), 'closed': r['closed'],
                                                                'new_states_per_depth': r['depth_states'], 'ops': r['n_ops'],
-                                                               'frozen': [n for n, c in zip(S['names'], S['frozen']) if c], 'io_tied_layers_by_dataflow': [ln for ln, _ in S.get('tied', [])], 'tensors': len(S['names']), 'samplers': len(S['sampler_names'])}
+                                                               'frozen': [n for n, c in zip(S['names'], S['frozen']) if c], 'io_tied_layers_by_dataflow': [ln for ln, _ in S.get('tied', [])], 'strided_conv1d_by_dataflow': sorted({ln for ln, _, _ in S.get('strided', [])}), 'tensors': len(S['names']), 'samplers': len(S['sampler_names'])}
     ctx.exhaustive = True
     ctx.extra['exhaustive_part'] = 'all op sequences over the alphabet, per prototype, modulo the abstract state: every transition of every reachable abstract state (closed = no new state at the last depth; depth >= %d always)' % MAXLEN
     if not all(r['closed'] or len(r['depth_states']) > MAXLEN for r in res):
@@ -329,6 +356,7 @@ def replay(r):
     method, model, x = M.build(r['prototype'], E, r.get('seed', 0))
     S = M.describe(method, model, x)
     S['tied'] = M.tied_masks(r['prototype'], model, S)
+    S['strided'] = M.strided_masks(r['prototype'], model, S)
     a = M.observe(model, S)
     want = want_init(S, a)
     fails = []
@@ -346,7 +374,8 @@ def replay(r):
         a = M.observe(model, S)
         want = want_after(S, want, op)
         if k == len(r['path']):
-            fails = oracle(S, r['prototype'], r['path'], op, a0, a, obs, want)
+            probe = M.mask_update_probe(model, x, S) if op[0] == 'fb' else None
+            fails = oracle(S, r['prototype'], r['path'], op, a0, a, obs, want, probe)
         print('after %-40s trainable: %s   samplers: %s' % (M.op_name(op), [n for n, g in zip(S['names'], a['rg']) if g and ('masker' in n or 'alpha' in n)],
                                                            [(n.split('.')[-2] + '.' + n.split('.')[-1], ['sm', 'gs', 'none'][s[2]], float(s[0]), s[1]) for n, s in zip(S['sampler_names'], a['samplers'])][:3]))
     print('property C11 requires: groups partition the parameters; train_* make exactly the named group trainable; a switch := b sets every non-frozen mask of its kind (every layer\'s discrete_cost) to b; frozen masks %s never trainable and never get a gradient; '
